@@ -162,6 +162,25 @@ fn memory_level<M: GuestMemory>(r: &Run, m: &M, l: &Layout) {
                 let mut src: &[u8] = &src_data;
                 let _ = m.read_volatile_from(ga, &mut src, c);
             });
+            // streams that end before the requested count is met (and an empty one)
+            r.call("read_volatile_from(short stream)", a, cu, 3, || {
+                let mut src: &[u8] = &src_data[..3];
+                let _ = m.read_volatile_from(ga, &mut src, c);
+                let mut src: &[u8] = &src_data[..0];
+                let _ = m.read_volatile_from(ga, &mut src, c);
+                let mut src: &[u8] = &src_data[..3];
+                let _ = m.read_exact_volatile_from(ga, &mut src, c);
+                let mut cur = std::io::Cursor::new(&src_data[..5]);
+                cur.set_position(7);
+                let _ = m.read_volatile_from(ga, &mut cur, c);
+            });
+            r.call("write_volatile_to(full sink)", a, cu, 3, || {
+                let mut sink = [0u8; 3];
+                let mut s: &mut [u8] = &mut sink;
+                let _ = m.write_volatile_to(ga, &mut s, c);
+                let mut s: &mut [u8] = &mut [];
+                let _ = m.write_volatile_to(ga, &mut s, c);
+            });
             r.call("read_exact_volatile_from", a, cu, 0, || {
                 let mut src: &[u8] = &src_data;
                 let _ = m.read_exact_volatile_from(ga, &mut src, c);
